@@ -11,6 +11,7 @@ import (
 	"io"
 	"log"
 	"net"
+	"net/http"
 	"net/http/httptest"
 	"runtime"
 	"strconv"
@@ -129,13 +130,17 @@ func (r *recorder) onConnect(name string) int64 {
 		r.add(fmt.Sprintf("connect ep=%d sess=%d", id, s), "ok")
 		r.conn[s]++
 	} else {
-		r.add("connect ep=999999 sess=0", "ok") // cannot happen: OnConnect without a mapped lifecycle
+		r.add("connect ep=999999 sess=0", "ok") // OnConnect for a request that was not accepted as an endpoint connection
+		r.conn[s]++
 	}
 	c := r.parks["connect:"+name]
 	d := time.Duration(r.jitter.Intn(2000)) * time.Microsecond
 	r.mu.Unlock()
 	if c != nil {
-		<-c
+		select {
+		case <-c:
+		case <-time.After(3 * time.Second): // never hold a callback for ever
+		}
 	}
 	time.Sleep(d)
 	return int64(s)
@@ -187,6 +192,9 @@ func gen(r *hx.Rand, big bool) scenario {
 		k = 2 + r.Intn(12)
 	}
 	for i := 0; i < k; i++ {
+		if r.Intn(6) == 0 {
+			ls = append(ls, fmt.Sprintf("plainget name=%d", r.Intn(2)))
+		}
 		ls = append(ls, fmt.Sprintf("life name=%d end=%s delay=%d", r.Intn(2), hx.Pick(r, []string{"close", "sever", "leave", "leave"}), r.Intn(3000)))
 	}
 	return scenario{ls}
@@ -208,8 +216,9 @@ func run(sc scenario, seed uint64, rep *hx.Report) (lines, expect []string, skip
 	defer sniproxy.VerifSetHook(nil)
 	srv := sniproxy.NewServer(&sniproxy.ServerConfig{OnConnect: rec.onConnect, OnDisconnect: rec.onDisconnect})
 	ts := httptest.NewServer(aries.Func(func(c *aries.C) error {
-		c.User = "ep" + strings.TrimPrefix(c.Path, "/")
-		return srv.ServeBack(c)
+		// the endpoint name is given explicitly and differs from the authenticated user
+		c.User = "user-" + strings.TrimPrefix(c.Path, "/")
+		return srv.ServeBackName(c, "ep"+strings.TrimPrefix(c.Path, "/"))
 	}))
 	defer ts.Close()
 	ctx := context.Background()
@@ -233,13 +242,22 @@ func run(sc scenario, seed uint64, rep *hx.Report) (lines, expect []string, skip
 			rec.mu.Lock()
 			rec.parks["unmap-enter:"+holdName] = make(chan struct{})
 			rec.mu.Unlock()
+		case "plainget":
+			// a request that is not a websocket handshake: no endpoint connection is accepted
+			resp, err := http.Get(ts.URL + "/" + kvs(ws, "name"))
+			if err == nil {
+				io.Copy(io.Discard, resp.Body)
+				resp.Body.Close()
+			}
 		case "life":
 			d, _ := strconv.Atoi(kvs(ws, "delay"))
 			time.Sleep(time.Duration(d) * time.Microsecond)
 			td := &trackDialer{}
-			ep, err := sniproxy.Dial(ctx, &sniproxy.StaticRouter{Host: ts.Listener.Addr().String()},
+			dctx, dcancel := context.WithTimeout(ctx, 15*time.Second)
+			ep, err := sniproxy.Dial(dctx, &sniproxy.StaticRouter{Host: ts.Listener.Addr().String()},
 				&sniproxy.DialOption{Path: "/" + kvs(ws, "name"), WithoutTLS: true,
 					Dialer: &websocket.Dialer{NetDialContext: td.dial}})
+			dcancel()
 			if err != nil {
 				return nil, nil, "dial: " + err.Error()
 			}
